@@ -4,13 +4,17 @@ PROP = {'engine': 'stack',
  'level': 'exploration',
  'quick': {'checks': 120, 'shards': 12, 'timeout': 900},
  'thorough': {'checks': 1500, 'shards': 14, 'timeout': 3000},
- 'rule': 'rapid draws the phase in which the first invocation lingers (initialisation, runtime working, response sent while an INVOKE-subscribed '
-         'extension finishes, timeout reset in progress), its length 50-400 ms and the arrival offsets of 1-2 extra callers inside that phase '
-         "(latches place them). Oracle: every extra caller issued before the first caller returned gets a 4xx within 1 s; the first caller's outcome "
-         'and two later invocations are exactly what they are without extra callers; the host process survives. Non-trivial: extra caller arrived in '
-         "flight and (phase other than 'runtime working' or two extra callers).",
- 'assumptions': ['fake process supervisor (DESIGN 3.4)',
-                 "the front end's unsynchronised initDone window is excluded by construction (explicit init)"],
+ 'rule': 'rapid draws the phase in which the first invocation lingers - initialisation (explicit, or started lazily by the first caller itself as in '
+         'the real binary, then optionally ordered by the pause point frontend.lazyInit), runtime working, response sent while an INVOKE-subscribed '
+         'extension finishes, timeout reset in progress, the reset that follows a Runtime.ExitError dragged out by an extension (`failreset`), the '
+         "last stretch of a timeout reset between the interop server's Clear() and the return of Reset (`resetgap`, pause point reset.serverCleared) "
+         '- its length 50-400 ms and the arrival offsets of 1-2 extra callers inside that phase (latches place them). Oracle: every extra caller '
+         'that demonstrably overlapped (it returned before the step that completes the first invocation was issued) gets a 4xx within 1 s; a caller '
+         "that is not refused has been accepted as an invocation of its own and receives its own runtime's answer; callers racing for the lazy "
+         "initialisation: whichever wins is served, the others are refused; the first caller's outcome and two later invocations are what they are "
+         "without extra callers; the host process survives. Non-trivial: extra caller arrived in flight and (phase other than 'runtime working' or "
+         'two extra callers).',
+ 'assumptions': ['fake process supervisor (DESIGN 3.4)'],
  'level_text': 'random search over arrival times of extra callers relative to each phase of an in-flight invocation, against the real front end + '
                'interop server; exploration of sampled offsets, not of every interleaving inside Reserve/Release.',
  'level_note': "extra callers are placed by latches and sleeps; orders inside the interop server's mutex-protected sections are not schedulable",
